@@ -2,6 +2,7 @@ package absint
 
 import (
 	"fmt"
+	"os"
 	"go/constant"
 	"go/token"
 	"go/types"
@@ -13,16 +14,27 @@ import (
 	"pv/core"
 )
 
+var traceForks = os.Getenv("PV_TRACE") != ""
+
 // Config tunes one interpretation run.
 type Config struct {
 	MaxDepth     int  // inline depth
 	MaxStates    int  // states per block before joining
+	MaxOutcomes  int  // distinct callee outcomes that continue separately in the caller
 	Budget       int  // total block-state executions before failing closed
 	CapRule      bool // report cap()/3-index/hi>len on input-derived slices (capacity dependence)
 	DecodeLenCap bool // slices of input regions may not extend past len
 	NilRule      bool // report dereference of possibly-nil pointers obtained from external decoding
 	// Opaque decides that a module function is not inlined (its effects are havoc'ed).
 	Opaque func(fn *ssa.Function) bool
+	// Heavy functions: all states reaching a call to one are joined into a single state first
+	// (bounds the number of times an expensive callee is interpreted; sound, loses path facts).
+	Heavy func(fn *ssa.Function) bool
+	// JoinAtCall: states are joined before calling these, but the callee itself keeps the normal state bound.
+	JoinAtCall func(fn *ssa.Function) bool
+	// Modular functions are verified once for arbitrary arguments (as their own root) and are
+	// opaque at their call sites; every one encountered is recorded in Interp.ModularSeen.
+	Modular func(fn *ssa.Function) bool
 }
 
 // Finding is one evaluated obligation instance.
@@ -63,6 +75,9 @@ type Interp struct {
 	fieldLen map[string]int64      // struct fields of slice type only ever assigned make([]T, const)
 	poolType map[*ssa.Global]types.Type
 	instance int
+	StepsByFn map[string]int // debug histogram
+	ModularSeen map[*ssa.Function]bool
+	roMemo      map[roKey]int
 	// LoopFacts: per loop head, whether a ranking function was established in every context analysed.
 	LoopFacts map[*ssa.BasicBlock]*LoopFact
 }
@@ -79,12 +94,12 @@ func New(p *core.Program, cfg Config, sink func(Finding)) *Interp {
 		cfg.MaxDepth = 10
 	}
 	if cfg.MaxStates == 0 {
-		cfg.MaxStates = 256
+		cfg.MaxStates = 96
 	}
 	if cfg.Budget == 0 {
 		cfg.Budget = 400000
 	}
-	in := &Interp{P: p, Atoms: NewAtomTable(), Cfg: cfg, Notes: map[string]int{}, sink: sink, globals: map[*ssa.Global]*Cell{}, LoopFacts: map[*ssa.BasicBlock]*LoopFact{}}
+	in := &Interp{P: p, Atoms: NewAtomTable(), Cfg: cfg, Notes: map[string]int{}, sink: sink, globals: map[*ssa.Global]*Cell{}, LoopFacts: map[*ssa.BasicBlock]*LoopFact{}, ModularSeen: map[*ssa.Function]bool{}}
 	in.emptyReg = in.newRegion("empty", false)
 	in.scanGlobals()
 	return in
@@ -149,6 +164,7 @@ type edgeState struct {
 }
 
 type fnExec struct {
+	recEntry map[int]recSnap // self-recursive function: entry length of slices behind pointer parameters
 	in     *Interp
 	fn     *ssa.Function
 	cfg    *core.FuncCFG
@@ -160,6 +176,22 @@ type fnExec struct {
 	inst   int
 }
 
+type recSnap struct {
+	cell *Cell
+	path []int
+	len  Lin
+}
+
+func hasSelfCall(fn *ssa.Function) bool {
+	found := false
+	core.EachInstr(fn, func(i ssa.Instruction) {
+		if c, ok := i.(ssa.CallInstruction); ok && c.Common().StaticCallee() == fn {
+			found = true
+		}
+	})
+	return found
+}
+
 // Exec interprets fn on args from heap h and returns all outcomes (returns and panics).
 func (in *Interp) Exec(fn *ssa.Function, args []Value, bind []Value, h *Heap) []Outcome {
 	if fn.Blocks == nil {
@@ -167,6 +199,9 @@ func (in *Interp) Exec(fn *ssa.Function, args []Value, bind []Value, h *Heap) []
 	}
 	in.stack = append(in.stack, fn)
 	defer func() { in.stack = in.stack[:len(in.stack)-1] }()
+	if in.StepsByFn != nil {
+		in.StepsByFn["CALLS "+fn.String()]++
+	}
 	in.instance++
 	x := &fnExec{in: in, fn: fn, cfg: core.CFG(fn), inst: in.instance}
 	x.computeRPO()
@@ -196,6 +231,20 @@ func (in *Interp) Exec(fn *ssa.Function, args []Value, bind []Value, h *Heap) []
 			st.env[fv] = bind[i]
 		} else {
 			st.env[fv] = in.unknownOf(fv.Type(), "free:"+fv.Name(), false)
+		}
+	}
+	if hasSelfCall(fn) {
+		// inductive hypothesis for the summarised recursive calls: a slice behind a pointer
+		// parameter only grows (append); checked at every return of this activation
+		x.recEntry = map[int]recSnap{}
+		for i, p := range fn.Params {
+			if pv, ok := st.env[p].(PtrV); ok && pv.Cell != nil {
+				if root, ok := h.mem[pv.Cell]; ok {
+					if sv, ok := getPath(root, pv.Path).(SliceV); ok {
+						x.recEntry[i] = recSnap{pv.Cell, pv.Path, sv.Len}
+					}
+				}
+			}
 		}
 	}
 	inm := map[*ssa.BasicBlock][]*State{fn.Blocks[0]: {st}}
@@ -286,17 +335,18 @@ func (x *fnExec) run(blocks []*ssa.BasicBlock, inm map[*ssa.BasicBlock][]*State,
 			continue
 		}
 		states = x.prepareBlock(b, states)
-		for _, st := range states {
-			in.steps++
-			if in.steps > in.Cfg.Budget {
-				if !in.Exceeded {
-					in.Exceeded = true
-					in.emit(Finding{Site: b.Instrs[0], Kind: "analysis", Undecid: true, Detail: "state budget exhausted"})
-				}
-				return
-			}
-			x.execBlock(b, st, route)
+		in.steps += len(states)
+		if in.StepsByFn != nil {
+			in.StepsByFn[x.fn.String()] += len(states)
 		}
+		if in.steps > in.Cfg.Budget {
+			if !in.Exceeded {
+				in.Exceeded = true
+				in.emit(Finding{Site: b.Instrs[0], Kind: "analysis", Undecid: true, Detail: "state budget exhausted"})
+			}
+			return
+		}
+		x.execBlock(b, states, route)
 	}
 	return
 }
@@ -373,7 +423,11 @@ func (x *fnExec) prepareBlock(b *ssa.BasicBlock, states []*State) []*State {
 		}
 		states = out
 	}
-	if len(states) > in.Cfg.MaxStates {
+	limit := in.Cfg.MaxStates
+	if in.Cfg.Heavy != nil && in.Cfg.Heavy(x.fn) {
+		limit = 3
+	}
+	if len(states) > limit {
 		in.Notes["join: state set joined at block (precision loss, sound)"]++
 		states = []*State{x.joinStates(states)}
 	}
@@ -385,12 +439,13 @@ func (x *fnExec) joinStates(states []*State) *State {
 	in := x.in
 	base := states[0].fork()
 	for _, o := range states[1:] {
+		var pend []Lin // facts about freshly joined values, added after the fact intersection
 		for k, v := range base.env {
 			ov, ok := o.env[k]
 			if !ok {
 				base.env[k] = in.unknownOf(k.Type(), "join", false)
 			} else {
-				base.env[k] = in.joinValue(v, ov, k.Type())
+				base.env[k] = in.joinValueH(v, ov, k.Type(), base.h, o.h, &pend)
 			}
 		}
 		for c, v := range base.h.mem {
@@ -398,7 +453,7 @@ func (x *fnExec) joinStates(states []*State) *State {
 			if !ok {
 				base.h.mem[c] = in.unknownOf(c.T, "join", false)
 			} else {
-				base.h.mem[c] = in.joinValue(v, ov, c.T)
+				base.h.mem[c] = in.joinValueH(v, ov, c.T, base.h, o.h, &pend)
 			}
 		}
 		var nf []Lin
@@ -411,6 +466,9 @@ func (x *fnExec) joinStates(states []*State) *State {
 			}
 		}
 		base.h.facts = nf
+		for _, f := range pend {
+			base.h.addFact(f)
+		}
 		base.h.neqs = nil
 		for k, v := range base.bools {
 			if ov, ok := o.bools[k]; !ok || ov.val != v.val {
@@ -424,12 +482,128 @@ func (x *fnExec) joinStates(states []*State) *State {
 				base.h.regver[r] = 1000000 + in.instance
 			}
 		}
+		joinKnown(base.h, o.h)
 		if len(o.defers) != len(base.defers) {
 			base.defers = nil
 		}
 	}
 	base.trail = append(base.trail, "(joined)")
 	return base
+}
+
+// joinKnown keeps only the known elements on which both heaps agree.
+func joinKnown(base, o *Heap) {
+	for r, ks := range base.known {
+		os := o.known[r]
+		var nk []knownElem
+		for _, k := range ks {
+			for _, ok := range os {
+				if ok.off == k.off && ok.val.Equal(k.val) {
+					nk = append(nk, k)
+					break
+				}
+			}
+		}
+		if len(nk) == 0 {
+			delete(base.known, r)
+		} else {
+			base.known[r] = nk
+		}
+	}
+}
+
+// glb returns the greatest constant c in [0, 65536] with h ⊢ l >= c (binary search), or -1.
+func glb(h *Heap, l Lin) int64 {
+	if lo, _ := l.Bounds(); lo >= 65536 {
+		return 65536
+	}
+	if !h.entails(l) {
+		return -1
+	}
+	lo, hi := int64(0), int64(65536)
+	for lo < hi {
+		mid := (lo + hi + 1) / 2
+		if h.entails(l.AddC(-mid)) {
+			lo = mid
+		} else {
+			hi = mid - 1
+		}
+	}
+	return lo
+}
+
+// joinValueH is joinValue with access to both heaps: when two slices of the same region are
+// joined, the common constant lower bound of their lengths is carried over to the fresh length.
+func (in *Interp) joinValueH(a, b Value, t types.Type, ha, hb *Heap, pend *[]Lin) Value {
+	if valuesEqual(a, b) {
+		return a
+	}
+	if sa, ok := a.(StructV); ok {
+		if sb, ok := b.(StructV); ok && len(sa.F) == len(sb.F) && t != nil {
+			if st, ok := t.Underlying().(*types.Struct); ok && st.NumFields() == len(sa.F) {
+				n := StructV{F: make([]Value, len(sa.F))}
+				for i := range sa.F {
+					n.F[i] = in.joinValueH(sa.F[i], sb.F[i], st.Field(i).Type(), ha, hb, pend)
+				}
+				return n
+			}
+		}
+	}
+	va, ok1 := a.(SliceV)
+	vb, ok2 := b.(SliceV)
+	if ok1 && ok2 && va.Str == nil && vb.Str == nil && !va.IsString && !vb.IsString {
+		// nil joined with a definitely non-nil slice: "nil or that slice" (its facts stay valid for the non-nil case)
+		nilOr := func(sv SliceV, h *Heap) Value {
+			// fresh length/capacity symbols: only the constant lower bound is carried over, so the
+			// facts are valid in the joined state whichever side it came from
+			m := glb(h, sv.Len)
+			if m < 0 {
+				m = 0
+			}
+			ln := in.Atoms.Fresh("len:nilor", m, PosInf)
+			cp := in.Atoms.Fresh("cap:nilor", m, PosInf)
+			cp.Defs = []Lin{AtomLin(cp).Sub(AtomLin(ln))}
+			ln.Defs = []Lin{AtomLin(cp).Sub(AtomLin(ln))}
+			return SliceV{Reg: sv.Reg, Off: sv.Off, Len: AtomLin(ln), Cap: AtomLin(cp), NilOr: true}
+		}
+		if va.IsNil && !vb.IsNil && (!vb.MaybeNil || vb.NilOr) && vb.Reg != nil {
+			return nilOr(vb, hb)
+		}
+		if vb.IsNil && !va.IsNil && (!va.MaybeNil || va.NilOr) && va.Reg != nil {
+			return nilOr(va, ha)
+		}
+	}
+	if ok1 && ok2 && !va.IsNil && !vb.IsNil && va.Reg != nil && vb.Reg != nil && va.Str == nil && vb.Str == nil {
+		res := in.joinValue(a, b, t)
+		if rs, ok := res.(SliceV); ok {
+			la, lb := glb(ha, va.Len), glb(hb, vb.Len)
+			if traceForks {
+				fmt.Printf("[joinslice] %s | %s -> glb %d %d stack=%d\n", va.vstr(), vb.vstr(), la, lb, len(in.stack))
+			}
+			m := la
+			if lb < m {
+				m = lb
+			}
+			if m > 0 {
+				*pend = append(*pend, rs.Len.AddC(-m))
+			}
+			if va.Reg == vb.Reg && va.Off.Equal(vb.Off) {
+				rs.Off = va.Off
+				res = rs
+			}
+			if !va.MaybeNil && !vb.MaybeNil {
+				rs.MaybeNil = false
+				res = rs
+			}
+			if va.NilOr || vb.NilOr {
+				rs.NilOr = true
+				rs.MaybeNil = false
+				res = rs
+			}
+		}
+		return res
+	}
+	return in.joinValue(a, b, t)
 }
 
 // joinValue joins two abstract values field-wise.
@@ -446,6 +620,27 @@ func (in *Interp) joinValue(a, b Value, t types.Type) Value {
 				n.F[i] = in.joinValue(sa.F[i], sb.F[i], st.Field(i).Type())
 			}
 			return n
+		}
+	}
+	ta, ok1 := a.(TupleV)
+	tb, ok2 := b.(TupleV)
+	if ok1 && ok2 && len(ta.F) == len(tb.F) && t != nil {
+		if tt, ok := t.(*types.Tuple); ok && tt.Len() == len(ta.F) {
+			n := TupleV{F: make([]Value, len(ta.F))}
+			for i := range ta.F {
+				n.F[i] = in.joinValue(ta.F[i], tb.F[i], tt.At(i).Type())
+			}
+			return n
+		}
+	}
+	if ia, ok := a.(IfaceV); ok {
+		if ib, ok := b.(IfaceV); ok && ia.Nil == ib.Nil {
+			return IfaceV{Nil: ia.Nil}
+		}
+	}
+	if pa, ok := a.(PtrV); ok {
+		if pb, ok := b.(PtrV); ok && pa.Nil == pb.Nil && pa.Cell == nil && pb.Cell == nil && pa.Reg == nil && pb.Reg == nil {
+			return PtrV{Nil: pa.Nil, T: pa.T}
 		}
 	}
 	va, ok1 := a.(SliceV)
@@ -500,6 +695,8 @@ func (x *fnExec) doLoop(l *core.Loop, entry []*State) []edgeState {
 		// candidates per entry state
 		cands := x.genCandidates(l, phis, e)
 		havocCells := map[*Cell]bool{}
+		noGrow := map[*Cell]bool{}
+		lostKnown := map[*Region]map[int64]bool{}
 		havocRegs := map[*Region]bool{}
 		keepRegion := map[*ssa.Phi]bool{}
 		for _, p := range phis {
@@ -529,11 +726,23 @@ func (x *fnExec) doLoop(l *core.Loop, entry []*State) []edgeState {
 				st.env[p] = nv
 			}
 			for c := range havocCells {
-				st.h.mem[c] = x.havocValue(e.h.mem[c], c.T)
+				nv := x.havocValue(e.h.mem[c], c.T)
+				// candidate invariant for slices held in cells: the length only grows (append)
+				if ev, ok := e.h.mem[c].(SliceV); ok && !noGrow[c] {
+					if sv, ok := nv.(SliceV); ok {
+						st.h.addFact(sv.Len.Sub(ev.Len))
+					}
+				}
+				st.h.mem[c] = nv
 			}
 			for r := range havocRegs {
-				in.instance++
-				st.h.regver[r] = 2000000 + in.instance
+				in.writeRegion(st.h, r, nil, nil, 2000000)
+				// known elements that no iteration overwrites stay known
+				for _, k := range e.h.known[r] {
+					if !lostKnown[r][k.off] {
+						st.h.setKnown(r, k.off, k.val)
+					}
+				}
 			}
 			for _, c := range cands {
 				if lin, ok := c.build(st.env[c.phi]); ok {
@@ -586,6 +795,20 @@ func (x *fnExec) doLoop(l *core.Loop, entry []*State) []edgeState {
 						}
 					}
 				}
+				for c := range havocCells {
+					if noGrow[c] {
+						continue
+					}
+					ev, ok1 := e.h.mem[c].(SliceV)
+					bv, ok2 := be.st.h.mem[c].(SliceV)
+					hv, ok3 := st.h.mem[c].(SliceV)
+					_ = ev
+					if ok1 && (!ok2 || !ok3 || !be.st.h.entails(bv.Len.Sub(hv.Len))) {
+						// not monotone w.r.t. the head value: drop the growth hypothesis
+						noGrow[c] = true
+						changed = true
+					}
+				}
 				for c, v := range be.st.h.mem {
 					if havocCells[c] || c.ID > startCell {
 						continue
@@ -593,6 +816,28 @@ func (x *fnExec) doLoop(l *core.Loop, entry []*State) []edgeState {
 					if ev, ok := e.h.mem[c]; ok && !valuesEqual(ev, v) {
 						havocCells[c] = true
 						changed = true
+					}
+				}
+				for r, ks := range e.h.known {
+					bk := be.st.h.known[r]
+					for _, k := range ks {
+						if lostKnown[r][k.off] {
+							continue
+						}
+						found := false
+						for _, k2 := range bk {
+							if k2.off == k.off && k2.val.Equal(k.val) {
+								found = true
+							}
+						}
+						if !found {
+							if lostKnown[r] == nil {
+								lostKnown[r] = map[int64]bool{}
+							}
+							lostKnown[r][k.off] = true
+							havocRegs[r] = true
+							changed = true
+						}
 					}
 				}
 				for r, v := range be.st.h.regver {
@@ -678,7 +923,7 @@ func (x *fnExec) harvestCandidates(l *core.Loop, phis []*ssa.Phi, e *State, head
 						bound = g.Neg().AddC(-c) // g + h >= 0  =>  φ >= -g - c
 						desc = p.Name() + " >= " + bound.String()
 					}
-					if seen[desc] || len(out) > 40 {
+					if seen[desc] || len(out) > 16 {
 						continue
 					}
 					seen[desc] = true
@@ -868,7 +1113,7 @@ func (x *fnExec) invariantBounds(l *core.Loop, e *State) []Lin {
 	seen := map[string]bool{}
 	add := func(li Lin) {
 		k := li.String()
-		if !seen[k] && len(out) < 24 {
+		if !seen[k] && len(out) < 10 {
 			seen[k] = true
 			out = append(out, li)
 		}
@@ -903,13 +1148,21 @@ func (x *fnExec) invariantBounds(l *core.Loop, e *State) []Lin {
 
 // ---------------- block execution ----------------
 
-func (x *fnExec) execBlock(b *ssa.BasicBlock, st *State, route func(from, to *ssa.BasicBlock, st *State)) {
+func (x *fnExec) execBlock(b *ssa.BasicBlock, states []*State, route func(from, to *ssa.BasicBlock, st *State)) {
 	// states may fork inside a block (inlined calls with several outcomes, modelled externals)
-	work := []*State{st}
+	work := states
 	for i := 0; i < len(b.Instrs); i++ {
 		ins := b.Instrs[i]
 		if _, ok := ins.(*ssa.Phi); ok {
 			continue
+		}
+		if len(work) > 1 && x.in.Cfg.Heavy != nil {
+			if ci, ok := ins.(ssa.CallInstruction); ok {
+				if cal := ci.Common().StaticCallee(); cal != nil && (x.in.Cfg.Heavy(cal) || (x.in.Cfg.JoinAtCall != nil && x.in.Cfg.JoinAtCall(cal))) {
+					x.in.Notes["join: states joined before a call to heavy callee "+cal.Name()]++
+					work = []*State{x.joinStates(work)}
+				}
+			}
 		}
 		var next []*State
 		for _, s := range work {
@@ -919,7 +1172,7 @@ func (x *fnExec) execBlock(b *ssa.BasicBlock, st *State, route func(from, to *ss
 		if len(work) == 0 {
 			return
 		}
-		if len(work) > x.in.Cfg.MaxStates*2 {
+		if len(work) > x.in.Cfg.MaxStates*2 || (len(work) > 3 && x.in.Cfg.Heavy != nil && x.in.Cfg.Heavy(x.fn)) {
 			x.in.Notes["join: state set joined inside block (precision loss, sound)"]++
 			work = []*State{x.joinStates(work)}
 		}
@@ -951,6 +1204,17 @@ func (x *fnExec) step(b *ssa.BasicBlock, ins ssa.Instruction, s *State, route fu
 				t.F = append(t.F, x.eval(s, r))
 			}
 			ret = t
+		}
+		for _, snap := range x.recEntry {
+			if root, ok := s.h.mem[snap.cell]; ok {
+				if sv, ok := getPath(root, snap.path).(SliceV); ok {
+					if !s.h.entails(sv.Len.Sub(snap.len)) {
+						in.emit(Finding{Site: v, Kind: "analysis", Undecid: true, Detail: "recursion summary hypothesis (slice behind pointer parameter only grows) not established at this return"})
+					}
+					continue
+				}
+			}
+			in.emit(Finding{Site: v, Kind: "analysis", Undecid: true, Detail: "recursion summary hypothesis could not be evaluated"})
 		}
 		x.outs = append(x.outs, Outcome{Ret: ret, H: s.h, Trail: s.trail})
 		return nil
@@ -999,6 +1263,9 @@ func (x *fnExec) branch(b *ssa.BasicBlock, cond ssa.Value, c BoolV, s *State, ro
 		fs := s
 		tOK := x.assume(ts, c)
 		fOK := x.assume(fs, c.Not())
+		if traceForks && tOK && fOK {
+			fmt.Printf("[fork] %s b%d: %s\n", x.fn.Name(), b.Index, c.vstr())
+		}
 		if tOK {
 			ts.note("T:" + c.vstr())
 			route(b, tb, ts)
@@ -1069,11 +1336,27 @@ func nilness(v Value) int {
 		if t.IsNil {
 			return 1
 		}
+		if t.NilOr {
+			return 0
+		}
 		if !t.MaybeNil {
 			return 2
 		}
 	}
 	return 0
+}
+
+// demote turns a nil-or-slice value into a plain unknown slice of the same region (used when
+// the value is used without a nil test).
+func (in *Interp) demote(sv SliceV) SliceV {
+	if !sv.NilOr {
+		return sv
+	}
+	ln := in.Atoms.Fresh("len:nilor", 0, PosInf)
+	cp := in.Atoms.Fresh("cap:nilor", 0, PosInf)
+	cp.Defs = []Lin{AtomLin(cp).Sub(AtomLin(ln))}
+	ln.Defs = []Lin{AtomLin(cp).Sub(AtomLin(ln))}
+	return SliceV{Reg: sv.Reg, Off: sv.Off, Len: AtomLin(ln), Cap: AtomLin(cp), MaybeNil: true, IsString: sv.IsString}
 }
 
 func (x *fnExec) refineNil(s *State, of ssa.Value, isNil bool) {
@@ -1097,6 +1380,16 @@ func (x *fnExec) refineNil(s *State, of ssa.Value, isNil bool) {
 		}
 		s.env[of] = t
 	case SliceV:
+		if t.NilOr {
+			if isNil {
+				t = SliceV{Reg: x.in.emptyReg, Len: Const(0), Cap: Const(0), IsNil: true}
+			} else {
+				t.NilOr = false
+				t.MaybeNil = false
+			}
+			s.env[of] = t
+			break
+		}
 		if isNil {
 			t.IsNil = true
 			s.h.addEq(t.Len)
@@ -1388,22 +1681,58 @@ func (x *fnExec) store(s *State, st *ssa.Store) {
 		s.h.mem[p.Cell] = setPath(root, p.Path, val, func(int) Value { return in.unknownOf(cell.T, "cell", false) })
 	case p.Reg != nil:
 		if p.ArrLen > 0 {
-			in.instance++
-			s.h.regver[p.Reg] = 3000000 + in.instance
+			n := Const(p.ArrLen)
+			in.writeRegion(s.h, p.Reg, &p.Off, &n, 3000000)
 			return
 		}
-		// element store: invalidate what is known about the region's contents
-		in.instance++
-		s.h.regver[p.Reg] = 3000000 + in.instance
-		// remember the stored byte so that a later load at the same offset sees it
+		// element store: other elements at constant offsets stay known
+		one := Const(1)
+		in.writeRegion(s.h, p.Reg, &p.Off, &one, 3000000)
 		if iv, ok := val.(IntV); ok {
-			lo, hi := typeRange(st.Val.Type())
-			a := in.elemAtom(s.h, p.Reg, p.Off, lo, hi)
-			s.h.addEq(AtomLin(a).Sub(iv.L))
+			if o, ok := p.Off.ConstVal(); ok {
+				s.h.setKnown(p.Reg, o, iv.L)
+			} else {
+				lo, hi := typeRange(st.Val.Type())
+				a := in.elemAtom(s.h, p.Reg, p.Off, lo, hi)
+				s.h.addEq(AtomLin(a).Sub(iv.L))
+			}
 		}
 	default:
 		x.checkNil(s, st, p, "store through possibly-nil pointer")
 	}
+}
+
+// isNICMAC recognises &(<*NICInfo>.HostAddr4|RouterAddr4).MAC
+func isNICMAC(fa *ssa.FieldAddr) bool {
+	if fieldNameOf(fa) != "MAC" {
+		return false
+	}
+	inner, ok := fa.X.(*ssa.FieldAddr)
+	if !ok {
+		return false
+	}
+	n := fieldNameOf(inner)
+	if n != "HostAddr4" && n != "RouterAddr4" {
+		return false
+	}
+	pt, ok := inner.X.Type().Underlying().(*types.Pointer)
+	if !ok {
+		return false
+	}
+	nt, ok := pt.Elem().(*types.Named)
+	return ok && nt.Obj().Name() == "NICInfo" && nt.Obj().Pkg().Path() == core.ModPath
+}
+
+func fieldNameOf(fa *ssa.FieldAddr) string {
+	pt, ok := fa.X.Type().Underlying().(*types.Pointer)
+	if !ok {
+		return ""
+	}
+	st, ok := pt.Elem().Underlying().(*types.Struct)
+	if !ok || fa.Field >= st.NumFields() {
+		return ""
+	}
+	return st.Field(fa.Field).Name()
 }
 
 // fieldKey names a struct field for the field-length invariant table.
@@ -1424,6 +1753,10 @@ func (x *fnExec) load(s *State, u *ssa.UnOp) Value {
 	p, _ := x.eval(s, u.X).(PtrV)
 	t := u.Type()
 	if fa, ok := u.X.(*ssa.FieldAddr); ok && p.Cell == nil && p.Reg == nil {
+		if isNICMAC(fa) {
+			in.Notes["configuration invariant assumed: NICInfo.HostAddr4.MAC / RouterAddr4.MAC have length 6"]++
+			return SliceV{Reg: in.newRegion("nicmac", false), Len: Const(6), Cap: Const(6)}
+		}
 		if n, ok := in.fieldLen[fieldKey(fa.X.Type(), fa.Field)]; ok {
 			in.Notes["field length invariant used (all module stores are make([]T, const)): "+fieldKey(fa.X.Type(), fa.Field)]++
 			return SliceV{Reg: in.newRegion("field", false), Len: Const(n), Cap: Const(n)}
@@ -1451,7 +1784,7 @@ func (x *fnExec) load(s *State, u *ssa.UnOp) Value {
 		}
 		if _, _, ok := isIntType(t); ok {
 			lo, hi := typeRange(t)
-			return IntV{AtomLin(in.elemAtom(s.h, p.Reg, p.Off, lo, hi))}
+			return IntV{in.elemLin(s.h, p.Reg, p.Off, lo, hi)}
 		}
 		return in.unknownOf(t, "elem", false)
 	}
@@ -1519,6 +1852,9 @@ func (x *fnExec) convert(s *State, c *ssa.Convert) Value {
 			return x.wrap(s, iv.L, dt, "conv")
 		}
 		return in.unknownOf(dt, "conv", false)
+	}
+	if sv, ok := src.(SliceV); ok && sv.NilOr {
+		src = in.demote(sv)
 	}
 	if isStringType(dt) {
 		if sv, ok := src.(SliceV); ok {
@@ -1667,6 +2003,61 @@ func (x *fnExec) binop(s *State, b *ssa.BinOp) Value {
 	tlo, thi := typeRange(t)
 	rc, rIsC := r.ConstVal()
 	lc, lIsC := l.ConstVal()
+	if lIsC && rIsC {
+		// constant folding (on the mathematical values; wrap() re-normalises to the type)
+		var v int64
+		ok := true
+		switch b.Op {
+		case token.ADD:
+			v = lc + rc
+		case token.SUB:
+			v = lc - rc
+		case token.MUL:
+			v = lc * rc
+		case token.QUO:
+			if rc == 0 {
+				ok = false
+			} else {
+				v = lc / rc
+			}
+		case token.REM:
+			if rc == 0 {
+				ok = false
+			} else {
+				v = lc % rc
+			}
+		case token.AND:
+			v = lc & rc
+		case token.OR:
+			v = lc | rc
+		case token.XOR:
+			v = lc ^ rc
+		case token.AND_NOT:
+			v = lc &^ rc
+		case token.SHL:
+			if rc < 0 || rc > 62 {
+				ok = false
+			} else {
+				v = lc << uint(rc)
+			}
+		case token.SHR:
+			if rc < 0 || rc > 63 {
+				ok = false
+			} else {
+				v = lc >> uint(rc)
+			}
+		default:
+			ok = false
+		}
+		if ok {
+			if v >= tlo && v <= thi {
+				return IntV{Const(v)}
+			}
+			if thi < PosInf && tlo >= 0 {
+				return IntV{Const(v & thi)} // unsigned wrap-around
+			}
+		}
+	}
 	llo, lhi := l.Bounds()
 	rlo, rhi := r.Bounds()
 	nonneg := func(lo int64) bool { return lo >= 0 }
@@ -1901,7 +2292,7 @@ func isNilConst(v ssa.Value) bool {
 func (x *fnExec) sliceOf(s *State, v ssa.Value) (SliceV, bool) {
 	switch t := x.eval(s, v).(type) {
 	case SliceV:
-		return t, true
+		return x.in.demote(t), true
 	case PtrV:
 		if t.Reg != nil && t.ArrLen > 0 {
 			return SliceV{Reg: t.Reg, Off: t.Off, Len: Const(t.ArrLen), Cap: Const(t.ArrLen)}, true
@@ -1969,7 +2360,7 @@ func (x *fnExec) index(s *State, t *ssa.Index) Value {
 	in.check(s, t, "index", sv.Len.Sub(idx).AddC(-1), "index < len")
 	if _, _, isInt := isIntType(t.Type()); isInt && !sv.IsString {
 		lo, hi := typeRange(t.Type())
-		return IntV{AtomLin(in.elemAtom(s.h, sv.Reg, sv.Off.Add(idx), lo, hi))}
+		return IntV{in.elemLin(s.h, sv.Reg, sv.Off.Add(idx), lo, hi)}
 	}
 	return in.unknownOf(t.Type(), "elem", false)
 }
@@ -2034,8 +2425,12 @@ func (x *fnExec) slice(s *State, t *ssa.Slice) Value {
 			}
 		}
 	}
-	// slicing a nil slice with [0:0] stays nil-able; otherwise proven non-nil only if base was
+	// slicing a nil slice with [0:0] stays nil-able; a slice whose high bound is >= 1 has a non-nil base
 	res.MaybeNil = sv.MaybeNil || sv.IsNil
+	if s.h.entails(hi.AddC(-1)) {
+		res.MaybeNil = false
+		res.IsNil = false
+	}
 	if _, isPtr := t.X.Type().Underlying().(*types.Pointer); isPtr {
 		res.MaybeNil = false
 	}
